@@ -116,6 +116,8 @@ package nbio
 
 // ---- the connection monitor: everything the mutex protects, and what holds whenever it is free
 //@ protected Conn by mux: left, writeList, closed, isWAdded, closeErr, rTimer, wTimer, gHead, gTail, gBHead, gBTail, gSeq0, gAcc, kSent[fd], kEv[fd], kMods[fd], elems(writeList), toWrite.buf, toWrite.offset, toWrite.fd, toWrite.remain, toWrite.gEnd, toWrite.gBEnd, toWrite.gSeq
+//@ monghost lock { self.gClosedAtLock = self.closed; self.gFlipDone = false }
+//@ monghost unlock { self.gTok = self.gTok || (!self.gClosedAtLock && self.closed && !self.gFlipDone) }
 //@ moninv queue: !self.closed ==> QueueInv(self)                                          // prop C01 C11 C17
 //@ moninv acct: !self.closed ==> self.gAcc == kSent[self.fd] + pend(self)                 // prop C01
 //@ moninv arm: !self.closed ==> ArmInv(self)                                             // prop C04
@@ -192,9 +194,9 @@ package nbio
 //@   ensures ret: result1 == nil ==> result0 == len(b)                                     // prop C01
 //@   ensures unlocked: !holds(c.mux)                                                        // prop C01
 //@   ensures afterclose: c.gClosedAtLock ==> result1 == net.ErrClosed && kSent[c.fd] == c.gSentSnap    // prop C03
+//@   ensures notoken: !c.gTok                                                                // prop C03
 //@   assigns everything
-//@   at lock#1 ghost { c.gClosedAtLock = c.closed; c.gSentSnap = kSent[c.fd] }
-//@   at before:closeWithErrorWithoutLock#1 ghost { c.gTok = !c.gClosedAtLock && c.closed }
+//@   at lock#1 ghost { c.gSentSnap = kSent[c.fd] }
 //@   at unlock#3 ghost { c.gAcc = c.gAcc + ite(err == nil, n, 0) }
 
 // ---- total length of a list of buffers: sumlen(row(in), off(in), k) = len(in[0]) + ... + len(in[k-1])
@@ -271,9 +273,10 @@ package nbio
 //@   requires Wired(c) && isStream(c) && !holds(c.mux) && Registered(c) && !c.gTok
 //@   ensures unlocked: !holds(c.mux)                                                      // prop C01
 //@   ensures rearm: cfgOneshot(c.p.g) && c.gSawQ && !c.closed ==> kMods[c.fd] > c.gMods0   // prop C04
+//@   ensures notoken: !c.gTok                                                                // prop C03
 //@   assigns everything
-//@   at lock#1 ghost { c.gClosedAtLock = c.closed; c.gMods0 = kMods[c.fd]; c.gSawQ = !c.closed && len(c.writeList) > 0 && kEv[c.fd] >= 0 }
-//@   at before:closeWithErrorWithoutLock#1 ghost { c.gTok = !c.gClosedAtLock && c.closed }
+//@   at lock#1 ghost { c.gMods0 = kMods[c.fd]; c.gSawQ = !c.closed && len(c.writeList) > 0 && kEv[c.fd] >= 0 }
+//@   at before:closeWithErrorWithoutLock#1 ghost { c.gTok = !c.gClosedAtLock && c.closed && !c.gFlipDone; c.gFlipDone = true }
 //@   loop 1
 //@     invariant holds(c.mux) && !c.closed && !c.gClosedAtLock && Wired(c) && isStream(c) && QueueInv(c) && c.gAcc == kSent[c.fd] + pend(c)
 //@     invariant maxw(c) > 0 ==> c.left <= maxw(c)
@@ -286,9 +289,9 @@ package nbio
 //@   ensures ret: result1 == nil ==> result0 == total(in)                                  // prop C01
 //@   ensures unlocked: !holds(c.mux)                                                        // prop C01
 //@   ensures afterclose: c.gClosedAtLock ==> result1 == net.ErrClosed && kSent[c.fd] == c.gSentSnap    // prop C03
+//@   ensures notoken: !c.gTok                                                                // prop C03
 //@   assigns everything
-//@   at lock#1 ghost { c.gClosedAtLock = c.closed; c.gSentSnap = kSent[c.fd] }
-//@   at before:closeWithErrorWithoutLock#1 ghost { c.gTok = !c.gClosedAtLock && c.closed }
+//@   at lock#1 ghost { c.gSentSnap = kSent[c.fd] }
 //@   at lock#1 assert hint: sumlen(row(in), off(in), 0) == 0
 //@   at unlock#3 ghost { c.gAcc = c.gAcc + ite(err == nil, n, 0) }
 
@@ -304,9 +307,10 @@ package nbio
 //@   ensures errret: result1 != nil && !c.closed ==> result0 == c.gAcc - c.gSnap            // prop C01
 //@   ensures unlocked: !holds(c.mux)                                                        // prop C01
 //@   ensures afterclose: f != nil && c.gClosedAtLock ==> result1 == net.ErrClosed && kSent[c.fd] == c.gSentSnap    // prop C03
+//@   ensures notoken: !c.gTok                                                                // prop C03
 //@   assigns everything
-//@   at lock#1 ghost { c.gSnap = c.gAcc; c.gClosedAtLock = c.closed; c.gSentSnap = kSent[c.fd] }
-//@   at before:closeWithErrorWithoutLock#1 ghost { c.gTok = !c.gClosedAtLock && c.closed }
+//@   at lock#1 ghost { c.gSnap = c.gAcc; c.gSentSnap = kSent[c.fd] }
+//@   at before:closeWithErrorWithoutLock#1 ghost { c.gTok = !c.gClosedAtLock && c.closed && !c.gFlipDone; c.gFlipDone = true }
 //@   at call:newToWriteFile#1 ghost { c.gAcc = c.gAcc + remain }
 //@   at call:Sendfile#1 ghost { c.gAcc = c.gAcc + ite(written > 0, written, 0) }
 //@   at call:newToWriteFile#2 ghost { c.gAcc = c.gAcc + remain }
@@ -343,9 +347,10 @@ package nbio
 //@ func (*Conn).ResetPollerEvent
 //@   props C04
 //@   safety index slice nil div assert panic make lock lockset
-//@   requires Wired(c) && !holds(c.mux)
+//@   requires Wired(c) && !holds(c.mux) && !c.gTok
 //@   ensures unlocked: !holds(c.mux)                                                                          // prop C04
 //@   ensures rearm: cfgOneshot(c.p.g) && c.gSawQ ==> kMods[c.fd] > c.gMods0                                   // prop C04
+//@   ensures notoken: !c.gTok                                                                // prop C03
 //@   assigns everything
 //@   at lock#1 ghost { c.gMods0 = kMods[c.fd]; c.gSawQ = !c.closed && kEv[c.fd] >= 0 }
 
@@ -355,6 +360,7 @@ package nbio
 // Conn.gNotified      close notifications delivered for this connection (written only by the token holder)
 // Conn.gEverClosed    (protected) closed has been observed true at an Unlock: it must stay true
 //@ ghost local Conn.gTok : Bool
+//@ ghost local Conn.gFlipDone : Bool
 //@ ghost local Conn.gSentSnap : Int
 //@ ghost local Conn.gClosedAtLock : Bool
 //@ ghost Conn.gNotified : Int
@@ -368,20 +374,22 @@ package nbio
 //@   havoc
 //@   note close callback (engine wrapper + user code): reaches the connection only through its public methods; no method clears closed, and only a token holder tears down
 //@   ensures c.closed == old(c.closed) && c.closeErr == old(c.closeErr) && c.gNotified == old(c.gNotified) && c.gTok == old(c.gTok) && c.writeList == old(c.writeList)
-//@   ensures c.p == old(c.p) && c.fd == old(c.fd) && c.typ == old(c.typ) && c.connUDP == old(c.connUDP) && !holds(c.mux)
+//@   ensures c.p == old(c.p) && c.fd == old(c.fd) && c.typ == old(c.typ) && c.connUDP == old(c.connUDP) && holds(c.mux) == old(holds(c.mux))
+//@   ensures old(JobInv(c)) ==> JobInv(c)
 
 //@ func (*udpConn).Close
 //@   trusted
 //@   havoc
 //@   note UDP session teardown (closes children); not under contract
-//@   ensures forall x *Conn :: old(x.closed) ==> x.closed && x.closeErr == old(x.closeErr) && x.gNotified == old(x.gNotified) && x.gTok == old(x.gTok) && x.writeList == old(x.writeList) && x.typ == old(x.typ) && x.fd == old(x.fd) && x.p == old(x.p)
+//@   ensures forall x *Conn :: old(x.closed) ==> x.closed && x.closeErr == old(x.closeErr) && x.gNotified == old(x.gNotified) && x.gTok == old(x.gTok) && x.writeList == old(x.writeList) && x.typ == old(x.typ) && x.fd == old(x.fd) && x.p == old(x.p) && (old(JobInv(x)) ==> JobInv(x)) && holds(x.mux) == old(holds(x.mux))
 
 //@ func (*poller).deleteConn
 //@   props C03
 //@   safety index slice nil div assert panic make
 //@   requires p.g != nil && c != nil && 0 <= c.fd && c.fd < len(p.g.connsUnix) && c.closed
 //@   ensures once: c.gNotified == old(c.gNotified) + ite(c.typ != ConnTypeUDPServer, 1, 0)        // prop C03
-//@   ensures keep: c.closed && c.closeErr == old(c.closeErr) && c.gTok == old(c.gTok) && c.writeList == old(c.writeList) && c.typ == old(c.typ) && c.fd == old(c.fd) && c.connUDP == old(c.connUDP) && c.p == old(c.p)   // prop C03
+//@   ensures keep: c.closed && c.closeErr == old(c.closeErr) && c.gTok == old(c.gTok) && c.writeList == old(c.writeList) && c.typ == old(c.typ) && c.fd == old(c.fd) && c.connUDP == old(c.connUDP) && c.p == old(c.p) && holds(c.mux) == old(holds(c.mux))   // prop C03
+//@   ensures jobs: old(JobInv(c)) ==> JobInv(c)                                                    // prop C05
 //@   assigns everything
 //@   at before:onClose#1 assert cause: arg_err == c.closeErr                                      // prop C03
 //@   at call:onClose#1 ghost { c.gNotified = c.gNotified + 1 }
@@ -394,10 +402,12 @@ package nbio
 //@   ensures once: c.gNotified == old(c.gNotified) + ite(c.p != nil && c.typ != ConnTypeUDPServer, 1, 0)   // prop C03
 //@   ensures cause: c.closeErr == err && c.closed                                                  // prop C03
 //@   ensures released: c.writeList == nil                                                          // prop C03 C11
-//@   ensures keep: c.p == old(c.p) && c.typ == old(c.typ)
+//@   ensures keep: c.p == old(c.p) && c.typ == old(c.typ) && holds(c.mux) == old(holds(c.mux))
+//@   ensures jobs: old(JobInv(c)) ==> JobInv(c)                                                    // prop C05
 //@   assigns everything, c.gTok
 //@   at entry ghost { c.gTok = false }
 //@   loop 1
+//@     invariant (old(JobInv(c)) ==> JobInv(c)) && holds(c.mux) == old(holds(c.mux))
 //@     invariant c.closed && c.closeErr == err && c.p == old(c.p) && c.typ == old(c.typ) && c.fd == old(c.fd) && c.connUDP == old(c.connUDP) && c.writeList == old(c.writeList) && !c.gTok && c.gNotified == old(c.gNotified)
 //@     invariant -1 <= rangeindex && (rangeindex < len(c.writeList) || len(c.writeList) == 0)
 //@     invariant c.p != nil && c.p.g != nil && c.p.g.Config.BodyAllocator != nil && c.p.g.connsUnix == old(c.p.g.connsUnix) && c.p.g == old(c.p.g)
@@ -411,19 +421,92 @@ package nbio
 //@   ensures closed: c.closed && !holds(c.mux)                                                     // prop C03
 //@   ensures idem: c.gClosedAtLock ==> result == nil && c.gNotified == c.gNotSnap && c.closeErr == c.gErrSnap  // prop C03
 //@   ensures first: !c.gClosedAtLock ==> c.closeErr == err && c.gNotified == c.gNotSnap + ite(c.p != nil && c.typ != ConnTypeUDPServer, 1, 0)   // prop C03
+//@   ensures notoken: !c.gTok                                                                // prop C03
 //@   assigns everything
-//@   at lock#1 ghost { c.gClosedAtLock = c.closed; c.gNotSnap = c.gNotified; c.gErrSnap = c.closeErr }
-//@   at before:closeWithErrorWithoutLock#1 ghost { c.gTok = !c.gClosedAtLock && c.closed }
+//@   at lock#1 ghost { c.gNotSnap = c.gNotified; c.gErrSnap = c.closeErr }
 
 //@ func (*Conn).Close
 //@   props C03
 //@   safety index slice nil div assert panic make
 //@   requires !holds(c.mux) && Registered(c) && (c.p != nil ==> c.p.g.Config.BodyAllocator != nil) && !c.gTok && (c.p == nil ==> c.writeList == nil)
 //@   ensures closed: c.closed && !holds(c.mux)                                                     // prop C03
+//@   ensures notoken: !c.gTok                                                                // prop C03
 //@   assigns everything
 //@ func (*Conn).CloseWithError
 //@   props C03
 //@   safety index slice nil div assert panic make
 //@   requires !holds(c.mux) && Registered(c) && (c.p != nil ==> c.p.g.Config.BodyAllocator != nil) && !c.gTok && (c.p == nil ==> c.writeList == nil)
 //@   ensures closed: c.closed && !holds(c.mux)                                                     // prop C03
+//@   ensures notoken: !c.gTok                                                                // prop C03
 //@   assigns everything
+
+// ---- per-connection job queue (C05): one drainer, jobs taken in submission order, each exactly once
+// protected:  gJActive  a drainer exists         gJNext  index in jobList of the job the drainer is running
+//             gJBase    jobs retired in earlier batches      gJSub / gJRun  jobs submitted / taken so far
+// thread-local (written only by the drainer, or by the submitter that creates it):
+//             gDToken   the drainer has been created and has not retired        gDNext  the drainer's own index
+//@ ghost Conn.gJActive : Bool
+//@ ghost Conn.gJNext : Int
+//@ ghost Conn.gJBase : Int
+//@ ghost Conn.gJSub : Int
+//@ ghost Conn.gJRun : Int
+//@ ghost local Conn.gDToken : Bool
+//@ ghost local Conn.gDNext : Int
+//@ ghost local Conn.gJLenSnap : Int
+//@ pred JobInv(c *Conn) := (c.gJActive == (len(c.jobList) > 0)) && (c.gJActive ==> 0 <= c.gJNext && c.gJNext < len(c.jobList)) && c.gJSub == c.gJBase + len(c.jobList) && c.gJRun == c.gJBase + ite(c.gJActive, c.gJNext + 1, 0) && (c.gJActive ==> c.gJNext == c.gDNext) && (c.gDToken ==> c.gJActive)
+//@ protected Conn by mux: jobList, elems(jobList), gJActive, gJNext, gJBase, gJSub, gJRun
+//@ moninv jobs: JobInv(self)                                                             // prop C05
+
+//@ fieldfunc nbio.Engine.Execute
+//@   params f
+//@   havoc
+//@   note the engine's executor runs its argument exactly once, now (inline) or later, on some goroutine (trusted; the built-in executors are the subject of C19)
+//@   assigns Conn.gDToken, Conn.gDNext
+
+//@ func (*Conn).execute
+//@   props C05
+//@   safety index slice nil div assert panic make
+//@   requires c.p != nil && c.p.g != nil && c.gDToken && c.gDNext == 0 && !holds(c.mux)
+//@   assigns everything, Conn.gDToken, Conn.gDNext
+
+// the drainer: knows its own index between critical sections; every job it takes is the next one submitted
+//@ func (*Conn).execute$1
+//@   props C05
+//@   safety index slice nil div assert panic make lock lockset
+//@   requires c != nil && c.gDToken && c.gDNext == 0 && !holds(c.mux)
+//@   ensures retired: !c.gDToken && !holds(c.mux)                                         // prop C05
+//@   assigns everything, Conn.gDToken, Conn.gDNext
+//@   at unlock#1 ghost { c.gJBase = c.gJBase + i; c.gJActive = false; c.gDToken = false }
+//@   at unlock#2 assert order: c.gJBase + i == c.gJRun && i == c.gJNext + 1                 // prop C05
+//@   at unlock#2 ghost { c.gJNext = i; c.gDNext = i; c.gJRun = c.gJRun + 1 }
+//@   loop 1
+//@     invariant c.gDToken && i == c.gDNext && !holds(c.mux) && i >= 0
+// the job itself (user code) and the panic barrier around it
+//@ func (*Conn).execute$1$1
+//@   inline
+//@   note runs the job inside a function literal whose deferred literal recovers: a panicking job does not stop the drainer
+//@ func (*Conn).execute$1$1$1
+//@   inline
+
+//@ func (*Conn).Execute
+//@   props C05 C03
+//@   safety index slice nil div assert panic make lock lockset
+//@   requires c.p != nil && c.p.g != nil && !holds(c.mux) && !c.gDToken && !c.gTok
+//@   ensures closedret: c.gClosedAtLock ==> !result                                        // prop C05 C03
+//@   ensures accepted: !c.gClosedAtLock ==> result                                          // prop C05
+//@   ensures notoken: !c.gTok                                                                // prop C03
+//@   assigns everything, Conn.gDToken, Conn.gDNext
+//@   at lock#1 ghost { c.gJLenSnap = len(c.jobList) }
+//@   at unlock#1 assert untouched: len(c.jobList) == c.gJLenSnap                            // prop C05 C03
+//@   at unlock#2 assert tail: len(c.jobList) == c.gJLenSnap + 1                             // prop C05
+//@   at unlock#2 ghost { c.gJSub = c.gJSub + 1; c.gJRun = c.gJRun + ite(c.gJLenSnap == 0, 1, 0); c.gJNext = ite(c.gJLenSnap == 0, 0, c.gJNext); c.gDNext = ite(c.gJLenSnap == 0, 0, c.gDNext); c.gDToken = (c.gJLenSnap == 0); c.gJActive = true }
+
+//@ func (*Conn).MustExecute
+//@   props C05
+//@   safety index slice nil div assert panic make lock lockset
+//@   requires c.p != nil && c.p.g != nil && !holds(c.mux) && !c.gDToken && !c.gTok
+//@   ensures notoken: !c.gTok                                                                // prop C03
+//@   assigns everything, Conn.gDToken, Conn.gDNext
+//@   at lock#1 ghost { c.gJLenSnap = len(c.jobList) }
+//@   at unlock#1 assert tail: len(c.jobList) == c.gJLenSnap + 1                             // prop C05
+//@   at unlock#1 ghost { c.gJSub = c.gJSub + 1; c.gJRun = c.gJRun + ite(c.gJLenSnap == 0, 1, 0); c.gJNext = ite(c.gJLenSnap == 0, 0, c.gJNext); c.gDNext = ite(c.gJLenSnap == 0, 0, c.gDNext); c.gDToken = (c.gJLenSnap == 0); c.gJActive = true }
